@@ -31,6 +31,9 @@ def run_register(c, file, cls, fields, delayed_conn):
     dby = c.real("delayedby")
     c.require(dby > 0)
     conn.fields.update(dt=dt, delayedby=(dby if delayed_conn else None))
+    conn.fields["presyn_receptive"] = Model(lambda itp, x: x, "presyn_receptive")
+    conn.fields["postsyn_receptive"] = Model(lambda itp, x: x, "postsyn_receptive")
+    box_conn = conn
     cell = Obj(None, "cell")
     cell.fields.update(connection=conn)
     calls = []
@@ -61,6 +64,7 @@ def run_register(c, file, cls, fields, delayed_conn):
             raise TypeError("monitor constructor")
         red = g("reducer")
         N = red.fields["_data__constraints"][0]
+        box.setdefault("raw", {})[k["name"]] = dict(unique=k["unique"], tags=k["tags"], prepend=g("prepend"), subattrs=(g("subattrs") if k["attr"] == "monitors" else None), conn=box_conn)
         table[k["name"]] = dict(attr=k["attr"], cls=red.cls.name, red=red, N=N, train=g("train_update"), evl=g("eval_update"), prehook=g("as_prehook"), dur=red.fields["_data__duration"], incl=red.fields["_data__inclusive"], rdt=red.fields["_data__dt"])
     return table, dt, dby, box
 
@@ -137,7 +141,44 @@ def _triplet(cls, stable):
 _triplet("TripletSTDP", False)
 _triplet("StableTripletSTDP", True)
 
+
+@contract(P, "MSTDPET.register_cell", [(T3, "MSTDPET.register_cell"), (T3, "MSTDPET._build_cell_state"), (T3, "EligibilityTraceReducer.__init__")], tags=("wiring",))
+def mstdpet_wiring(c):
+    lr_post, lr_pre, tc_post, tc_pre, tce = c.real("lr_post"), c.real("lr_pre"), c.real("tc_post"), c.real("tc_pre"), c.real("tc_eligibility")
+    c.require(tc_post > 0, tc_pre > 0, lr_post != 0, lr_pre != 0, tce > 0)
+    mode = c.choice("trace_mode", ["cumulative", "nearest"])
+    fields = dict(lr_post=lr_post, lr_pre=lr_pre, tc_post=tc_post, tc_pre=tc_pre, tc_eligibility=tce, tolerance=0.0, trace=mode, batchreduce=None, inplace=False, scale=1.0)
+    table, dt, dby, box = run_register(c, T3, "MSTDPET", fields, False)
+    raw = box["raw"]
+    c.ensure("monitor_names", sorted(table) == sorted(["spike_post", "spike_pre", "trace_post", "trace_pre", "elig_post", "elig_pre"]))
+    base = {n: m for n, m in table.items() if not n.startswith("elig")}
+    common_clauses(c, base, dt, "connection.synspike")
+    tp, tq = table["trace_post"]["red"], table["trace_pre"]["red"]
+    c.ensure("trace_amplitudes_and_taus", z3.And(num(tp.fields["amplitude"]) == zabs(lr_pre.z), num(tp.fields["time_constant"]) == tc_post.z, num(tq.fields["amplitude"]) == zabs(lr_post.z), num(tq.fields["time_constant"]) == tc_pre.z))
+    # eligibility traces: z_post integrates (presynaptic trace x postsynaptic spike), z_pre (postsynaptic trace x presynaptic spike)
+    c.ensure("eligibility_monitors_read_the_cell_monitor_map", table["elig_post"]["attr"] == "monitors" and table["elig_pre"]["attr"] == "monitors")
+    c.ensure("elig_post_pairs_pre_trace_with_post_spike", tuple(raw["elig_post"]["subattrs"]) == ("trace_pre.latest", "spike_post.latest"))
+    c.ensure("elig_pre_pairs_post_trace_with_pre_spike", tuple(raw["elig_pre"]["subattrs"]) == ("trace_post.latest", "spike_pre.latest"))
+    ep, eq = table["elig_post"]["red"], table["elig_pre"]["red"]
+    c.ensure("eligibility_time_constant_and_step", z3.And(num(ep.fields["time_constant"]) == tce.z, num(eq.fields["time_constant"]) == tce.z, num(table["elig_post"]["rdt"]) == dt.z, num(table["elig_pre"]["rdt"]) == dt.z))
+    conn = raw["elig_post"]["conn"]
+    pre_m, post_m = conn.fields["presyn_receptive"], conn.fields["postsyn_receptive"]
+
+    def target(wm):
+        return wm() if not isinstance(wm, Model) else wm
+
+    c.ensure("elig_post_reshapes_observation_as_presynaptic_condition_as_postsynaptic", target(ep.fields["obs_reshape"]) is pre_m and target(ep.fields["cond_reshape"]) is post_m)
+    c.ensure("elig_pre_reshapes_observation_as_postsynaptic_condition_as_presynaptic", target(eq.fields["obs_reshape"]) is post_m and target(eq.fields["cond_reshape"]) is pre_m)
+    # ordering inside one layer step: the trace / spike monitors are prepended (run first), the eligibility monitors are
+    # appended (run after them) so that `.latest` is this step's value
+    c.ensure("eligibility_monitors_run_after_the_monitors_they_read", all(raw[n]["prepend"] is True for n in base) and raw["elig_post"]["prepend"] is False and raw["elig_pre"]["prepend"] is False)
+    c.ensure("eligibility_monitors_are_never_pooled", raw["elig_post"]["unique"] is True and raw["elig_pre"]["unique"] is True)
+    c.ensure("all_record_in_training_only", all(m["train"] is True and m["evl"] is False for m in table.values()))
+    c.canary("canary_eligibility_tau_is_tc_post", num(ep.fields["time_constant"]) == tc_post.z)
+
 MUTANTS = [
+    dict(file=T3, func="MSTDPET.register_cell", old='subattrs=("trace_pre.latest", "spike_post.latest"),', new='subattrs=("trace_post.latest", "spike_post.latest"),', contracts=["MSTDPET.register_cell"]),
+    dict(file=T3, func="MSTDPET.register_cell", old="                subattrs=(\"trace_pre.latest\", \"spike_post.latest\"),\n                prepend=False,", new="                subattrs=(\"trace_pre.latest\", \"spike_post.latest\"),\n                prepend=True,", contracts=["MSTDPET.register_cell"], name="eligibility monitor runs before the traces it reads"),
     dict(file=T2, func="TripletSTDP.register_cell", old="cell.connection.delayedby + cell.connection.dt", new="max(cell.connection.delayedby, 2 * cell.connection.dt)", contracts=["TripletSTDP.register_cell"], name="seed C08: slow pre trace record one slot short in delayed mode"),
     dict(file=T2, func="STDP.register_cell", old='"synapse.spike" if delayed else "connection.synspike",\n            StateMonitor.partialconstructor(\n                reducer=state.tracecls(', new='"connection.synspike" if delayed else "synapse.spike",\n            StateMonitor.partialconstructor(\n                reducer=state.tracecls(', contracts=["STDP.register_cell"]),
     dict(file=T2, func="STDP.register_cell", old="amplitude=abs(state.lr_pre),", new="amplitude=abs(state.lr_post),", contracts=["STDP.register_cell"]),
